@@ -21,6 +21,11 @@ func genPolicy(r *simctl.Rand, est int) simctl.Policy {
 	p.Pool = []int{0, 0, 0, 1, 2}[p.Seed%5]
 	// simulated time passing between steps ("the released task was slow")
 	p.Jitter = []int{0, 0, 0, 0, 0, 0, 20, 20, 200, 200}[(p.Seed/5)%10]
+	// a CPU quota below the core count: GOMAXPROCS(0) < NumCPU in one run of four
+	p.GMP = []int{0, 0, 0, 0, 0, 0, 1, 2, 3, 5}[(p.Seed/50)%10]
+	if p.Kind == "first" || p.Kind == "last" {
+		p.GMP = []int{0, 0, 1, 2}[r.Intn(4)]
+	}
 	return p
 }
 
@@ -106,10 +111,13 @@ func prfStream(r *simctl.Rand) StreamSpec {
 // regular file or a pipe, possibly positioned behind an already consumed
 // header.
 func genCarrier(c *RunConfig, r *simctl.Rand, fast bool) {
-	kinds := []string{"bytes", "bytes", "file", "pipe", "bufio"}
+	kinds := []string{"bytes", "bytes", "file", "pipe", "bufio", "writerto", "fifo"}
 	c.Carrier = kinds[r.Intn(len(kinds))]
 	if c.Carrier == "bytes" || c.Carrier == "file" {
 		c.CarrierOffset = []int{0, 1250, 2500, 4096, 125000, 1 + r.Intn(5000)}[r.Intn(6)]
+	}
+	if c.Carrier == "writerto" {
+		c.CarrierOffset = r.Intn(4) // (selects the chunk size of its WriteTo; no header)
 	}
 	c.Chunk = ChunkSpec{Kind: "full"}
 	c.Stream.EOFData = false
@@ -400,6 +408,10 @@ func Plan(prop, tier string, seed uint64) []RunConfig {
 						c.Companion = detPrelude(w, r)
 						c.Companion[0].SameSource = false
 					}
+					if r.Intn(12) == 0 {
+						// nobody listens to the process's standard output
+						c.Stdio = []string{"closed", "pipe-closed"}[r.Intn(2)]
+					}
 					out = append(out, c)
 				}
 			}
@@ -443,6 +455,9 @@ func Plan(prop, tier string, seed uint64) []RunConfig {
 					if k%8 == 5 {
 						c.Companion = detPrelude(w, r)
 						c.Companion[0].SameSource = false
+					}
+					if k%8 == 1 && r.Intn(3) == 0 {
+						c.Stdio = []string{"closed", "pipe-closed"}[r.Intn(2)]
 					}
 					out = append(out, c)
 				}
@@ -581,8 +596,12 @@ func Plan(prop, tier string, seed uint64) []RunConfig {
 							if ch.Kind != "full" {
 								ry = 1 + r.Intn(64)
 							}
+							burst := 0
+							if !sticky {
+								burst = []int{0, 0, 2, 4, 6}[r.Intn(5)]
+							}
 							c := RunConfig{Prop: prop, Workflow: w, Workers: W, Policy: pol,
-								Stream: prfStream(r), Chunk: ch, Fault: FaultSpec{Kind: kind, At: f, Sticky: sticky},
+								Stream: prfStream(r), Chunk: ch, Fault: FaultSpec{Kind: kind, At: f, Sticky: sticky, Burst: burst},
 								Runners: RunnerSpec{Mode: "scripted", Seed: r.Uint64()}, ReadYield: ry}
 							if r.Intn(8) == 0 {
 								c.Prelude = detPrelude(w, r)
@@ -936,6 +955,11 @@ func singleCase(prop string, nb int, r *simctl.Rand) RunConfig {
 	if st.Kind != "const" && st.Kind != "periodic" && r.Intn(8) == 0 {
 		genCarrier(&c, r, false)
 	}
+	if c.Carrier == "" && c.Chunk.Kind != "full" && r.Intn(6) == 0 {
+		// a polled, slow device: empty reads, and reads that take seconds
+		c.Chunk.Empty = 2
+		c.Chunk.Delay, c.Chunk.DelaySec = 1+r.Intn(3), []int{2, 30, 600}[r.Intn(3)]
+	}
 	if c.Carrier == "" && r.Intn(6) == 0 {
 		// another single-shot detection overlaps this one (on its own source):
 		// with a chunked source it runs between two of our reads
@@ -981,6 +1005,10 @@ func planC14(prop string, thorough bool, r *simctl.Rand) []RunConfig {
 		} else if wi.SampleBytes == 2500 && r.Intn(4) == 0 {
 			// another detection of the same kind runs at the same time on a healthy device
 			c.Companion = []PreludeSpec{{Workflow: w, Stream: StreamSpec{Kind: "prf", Seed: r.Uint64()}}}
+		} else if wi.SampleBytes == 2500 && r.Intn(6) == 0 {
+			// the stuck device also glitches: a short burst of read errors, then it delivers
+			// (its stuck stream) again - still (false, non-nil error)
+			c.Fault = FaultSpec{Kind: []string{"temporary", "custom", "wrapeof"}[r.Intn(3)], At: int64(r.Intn(50000)), Burst: 1 + r.Intn(6)}
 		}
 		out = append(out, c)
 	}
